@@ -37,7 +37,8 @@ Print Assumptions C06_redist_step_preserves.
    the sharings are well formed, the driving quorum is a duplicate-free set of at least two current
    holders, the anchor if any is one of them, the tapes belong to the quorum members, there are next
    holders), a solver that answers with reconstructing coefficients for the quorum in the current
-   and in the zero sharing, and tapes long enough for the two dealings, NO honest step is refused:
+   and in the zero sharing, tapes of the length of the two dealings, and sharings with at least two
+   columns (the dealer refuses one-column MSPs), NO honest step is refused:
    every check of HJKY Round2 and of Round3 (pieces, consistency with the own / the anchor's data,
    partial public keys, old pk = new pk, aggregated share) passes at every party. *)
 Theorem C06_redist_step_complete :
@@ -48,6 +49,7 @@ Theorem C06_redist_step_complete :
   coefs_checked K solve (sa_zs a) (sa_Q a) = Some lamz ->
   (forall e : N * vec, In e (sa_rnd1 a) -> length (snd e) = sh_dim (sa_zs a)) ->
   (forall e : N * vec, In e (sa_rnd2 a) -> length (snd e) = sh_dim ns) ->
+  (2 <= sh_dim (sa_zs a))%nat -> (2 <= sh_dim ns)%nat ->
   exists w' : world, redist_run K solve w ns a = Some w'.
 Proof. exact (@redist_run_complete). Qed.
 Print Assumptions C06_redist_step_complete.
